@@ -51,3 +51,5 @@ pub mod batchinv;
 pub use batchinv::*;
 pub mod euler;
 pub use euler::*;
+pub mod gcdred;
+pub use gcdred::*;
